@@ -40,8 +40,12 @@ Record tables := {
   t_left : pmap;       (* binaryLeftPrecMap *)
   t_right : pmap;      (* binaryRightPrecMap *)
   t_unop : pmap;       (* unaryOpPrecMap: level of the unary expression itself *)
-  t_binop : pmap       (* binaryOpPrecMap *)
+  t_binop : pmap;      (* binaryOpPrecMap *)
+  t_const : pmap       (* the `X < prec` guards of the four constant replacements in minifyExpr: constant -> OpPrec name X *)
 }.
+
+(* the constant atoms minifyExpr replaces by a shorter expression: literal true / false, undeclared undefined / Infinity *)
+Inductive constk := CTrue | CFalse | CUndefined | CInfinity.
 
 Inductive expr :=
 | EAtom (tok : string)
@@ -52,7 +56,29 @@ Inductive expr :=
 | EGroup (x : expr)
 | ECall (f a : expr)
 | EDot (x : expr) (name : string) (chain_has_call : bool)     (* DotExpr.Prec: OpCall when the chain contains a call *)
-| EIndex (x i : expr) (chain_has_call : bool).
+| EIndex (x i : expr) (chain_has_call : bool)
+| EConst (k : constk).                     (* a Var / LiteralExpr in the AST; written as !0 !1 0[0] 1/0 *)
+
+Inductive tok := TAtom (s : string) | TOp (name : string) | TQ | TColon | TL | TR | TLB | TRB | TDot.
+
+Definition const_name (k : constk) : string :=
+  match k with CTrue => "true" | CFalse => "false" | CUndefined => "undefined" | CInfinity => "Infinity" end.
+(* the tree a parser builds from the replacement text *)
+Definition const_expr (k : constk) : expr :=
+  match k with
+  | CTrue => EPre "NotToken" (EAtom "0")
+  | CFalse => EPre "NotToken" (EAtom "1")
+  | CUndefined => EIndex (EAtom "0") (EAtom "0") false
+  | CInfinity => EBin "DivToken" (EAtom "1") (EAtom "0")
+  end.
+(* the replacement text itself, as js.go writes it (literal bytes, no recursive call of the printer) *)
+Definition const_tokens (k : constk) : list tok :=
+  match k with
+  | CTrue => [TOp "NotToken"; TAtom "0"]
+  | CFalse => [TOp "NotToken"; TAtom "1"]
+  | CUndefined => [TAtom "0"; TLB; TAtom "0"; TRB]
+  | CInfinity => [TAtom "1"; TOp "DivToken"; TAtom "0"]
+  end.
 
 Section Printer.
   Variable T : tables.
@@ -66,9 +92,11 @@ Section Printer.
     | EGroup x => expr_prec x
     | ECall _ _ => OpCall
     | EDot _ _ c | EIndex _ _ c => if c then OpCall else OpMember
+    | EConst _ => OpPrimary
     end.
 
-  Inductive tok := TAtom (s : string) | TOp (name : string) | TQ | TColon | TL | TR | TLB | TRB | TDot.
+  (* the X of `if X < prec` around the replacement of constant k *)
+  Definition const_guard (k : constk) : nat := plookup (t_const T) (const_name k).
 
   Fixpoint print (prec : nat) (e : expr) : list tok :=
     match e with
@@ -81,6 +109,7 @@ Section Printer.
     | ECall f a => print OpCall f ++ [TL] ++ print OpAssign a ++ [TR]
     | EDot x n _ => print (if Nat.leb OpNew prec then OpMember else OpCall) x ++ [TDot; TAtom n]
     | EIndex x i _ => print (if Nat.ltb prec OpNew then OpCall else OpMember) x ++ [TLB] ++ print OpExpr i ++ [TRB]
+    | EConst k => if Nat.ltb (const_guard k) prec then [TL] ++ const_tokens k ++ [TR] else const_tokens k
     end.
 
   (* the tree the parser rebuilds from the printed tokens: dropped groups vanish, the others stay *)
@@ -95,5 +124,6 @@ Section Printer.
     | ECall f a => ECall (strip OpCall f) (strip OpAssign a)
     | EDot x n c => EDot (strip (if Nat.leb OpNew prec then OpMember else OpCall) x) n c
     | EIndex x i c => EIndex (strip (if Nat.ltb prec OpNew then OpCall else OpMember) x) (strip OpExpr i) c
+    | EConst k => if Nat.ltb (const_guard k) prec then EGroup (const_expr k) else const_expr k
     end.
 End Printer.
